@@ -7,7 +7,7 @@
    node path printed in the error's message (the public carrier of the path).
    The model gives the SET of legal answers (parallel failures: any one may be reported);
    the observation must be one of them.  Messages are never compared. *)
-From Eino Require Import Base.Util Model.Errors.
+From Eino Require Import Base.Util Model.Errors Model.ErrorsFwd.
 
 Inductive obs : Type := OOk | OErr (p : proj) | OItem (p : proj) | OPanic | OHang.
 
@@ -51,16 +51,22 @@ Definition obs_eqb (a b : obs) : bool :=
   | _, _ => false
   end.
 
+(* A second kind of case drives the stream forwarders of schema/stream.go on their own
+   (Model/ErrorsFwd.v): sources merged with MergeStreamReaders, the merged stream read to EOF;
+   the observation must be an interleaving of the forwarded members (a single member is read
+   directly). *)
 Inductive ccase : Type :=
-| Case (F : forest) (p : paradigm) (cancel_before : bool) (in_item : option err) (o : obs).
+| Case (F : forest) (p : paradigm) (cancel_before : bool) (in_item : option err) (o : obs)
+| FwdCase (srcs : list (list selem)) (o : fobs).
 
 Definition legal (c : ccase) : list (option obs) :=
-  match c with Case F p cb ii _ => map obs_of (answers F p cb ii) end.
+  match c with Case F p cb ii _ => map obs_of (answers F p cb ii) | FwdCase _ _ => [] end.
 
 Definition bad (c : ccase) : bool :=
   match c with
   | Case F p cb ii o =>
       negb (existsb (fun l => match l with Some o' => obs_eqb o o' | None => false end) (legal c))
+  | FwdCase srcs o => negb (fwd_legal srcs o)
   end.
 
 Definition mismatches (cs : list ccase) : list nat := mismatches_from bad 0 cs.
